@@ -181,52 +181,121 @@ pub fn worker_count() -> usize {
         .max(1)
 }
 
-/// Run `count` generated cases over all cores. Deterministic in (seed, property, count).
-pub fn run_cases<P: Property>(p: &P, seed: u64, tier: Tier, count: u64) -> Vec<RunRecord<P::Case>> {
+/// What the runner keeps of a batch of runs (streamed, so millions of runs fit in memory).
+pub struct Batch<C> {
+    pub evaluations: u64,
+    pub total: Stats,
+    pub distinct: BTreeSet<u64>,
+    pub degenerate: BTreeMap<String, u64>,
+    pub harness_errors: Vec<String>,
+    /// violating runs (bounded), sorted by run index
+    pub violating: Vec<RunRecord<C>>,
+    pub violation_count: u64,
+    /// the first few runs, for the evidence samples
+    pub samples: Vec<RunRecord<C>>,
+}
+
+impl<C> Batch<C> {
+    fn new() -> Batch<C> {
+        Batch {
+            evaluations: 0,
+            total: Stats::default(),
+            distinct: BTreeSet::new(),
+            degenerate: BTreeMap::new(),
+            harness_errors: Vec::new(),
+            violating: Vec::new(),
+            violation_count: 0,
+            samples: Vec::new(),
+        }
+    }
+    fn absorb(&mut self, mut o: Batch<C>) {
+        self.evaluations += o.evaluations;
+        self.total.merge(&o.total);
+        self.distinct.append(&mut o.distinct);
+        for (k, v) in o.degenerate {
+            *self.degenerate.entry(k).or_insert(0) += v;
+        }
+        self.harness_errors.append(&mut o.harness_errors);
+        self.violating.append(&mut o.violating);
+        self.violation_count += o.violation_count;
+        self.samples.append(&mut o.samples);
+    }
+}
+
+const MAX_KEPT_VIOLATIONS: usize = 256;
+
+/// Run `count` generated cases over all cores. Deterministic in (seed, property, count):
+/// everything aggregated is order-independent (sums, sets) or sorted by run index.
+pub fn run_cases<P: Property>(p: &P, seed: u64, tier: Tier, count: u64) -> Batch<P::Case> {
     let next = AtomicU64::new(0);
-    let out: Mutex<Vec<RunRecord<P::Case>>> = Mutex::new(Vec::new());
+    let out: Mutex<Batch<P::Case>> = Mutex::new(Batch::new());
     let fixed = p.fixed_cases();
     let nfixed = fixed.len() as u64;
     let total = count + nfixed;
     std::thread::scope(|scope| {
         for _ in 0..worker_count() {
             scope.spawn(|| {
-                let mut local = Vec::new();
+                let mut local: Batch<P::Case> = Batch::new();
                 loop {
-                    let i = next.fetch_add(1, Ordering::Relaxed);
-                    if i >= total {
+                    // blocks of indices keep contention on the counter negligible
+                    let base = next.fetch_add(16, Ordering::Relaxed);
+                    if base >= total {
                         break;
                     }
-                    let case = if i < nfixed {
-                        fixed[i as usize].clone()
-                    } else {
-                        let mut rng = Rng::for_run(seed, p.id(), i - nfixed);
-                        p.generate(&mut rng, tier)
-                    };
-                    let mut stats = Stats::default();
-                    let outcome = p.check(&case, &mut stats);
-                    let key = p.nontrivial_key(&case, &stats);
-                    // keep cases only where needed (samples, violations) to bound memory
-                    if let Outcome::Degenerate(why) = &outcome {
-                        if std::env::var("VERIF_DEBUG_DEGENERATE").map(|f| why.contains(&f)).unwrap_or(false) {
-                            eprintln!("DEGENERATE run {}: {}\n{}", i, why, serde_json::to_string(&p.sample(&case)).unwrap());
+                    for i in base..(base + 16).min(total) {
+                        let case = if i < nfixed {
+                            fixed[i as usize].clone()
+                        } else {
+                            let mut rng = Rng::for_run(seed, p.id(), i - nfixed);
+                            p.generate(&mut rng, tier)
+                        };
+                        let mut stats = Stats::default();
+                        let outcome = p.check(&case, &mut stats);
+                        let key = p.nontrivial_key(&case, &stats);
+                        local.evaluations += 1;
+                        local.total.merge(&stats);
+                        match &outcome {
+                            Outcome::Pass => {
+                                if let Some(k) = key {
+                                    local.distinct.insert(k);
+                                }
+                            }
+                            Outcome::Degenerate(why) => {
+                                if std::env::var("VERIF_DEBUG_DEGENERATE").map(|f| why.contains(&f)).unwrap_or(false) {
+                                    eprintln!("DEGENERATE run {}: {}\n{}", i, why, serde_json::to_string(&p.sample(&case)).unwrap());
+                                }
+                                *local.degenerate.entry(why.clone()).or_insert(0) += 1;
+                            }
+                            Outcome::Violation(_) => {
+                                if let Some(k) = key {
+                                    local.distinct.insert(k);
+                                }
+                                local.violation_count += 1;
+                            }
+                            Outcome::HarnessError(e) => {
+                                if local.harness_errors.len() < 20 {
+                                    local.harness_errors.push(format!("run {}: {}", i, e));
+                                }
+                            }
+                        }
+                        let is_violation = matches!(outcome, Outcome::Violation(_));
+                        if is_violation && local.violating.len() < MAX_KEPT_VIOLATIONS {
+                            local.violating.push(RunRecord { index: i, case: Some(case), outcome, stats, key });
+                        } else if i < nfixed + 3 {
+                            local.samples.push(RunRecord { index: i, case: Some(case), outcome, stats, key });
                         }
                     }
-                    let keep = i < nfixed + 3 || matches!(outcome, Outcome::Violation(_));
-                    local.push(RunRecord { index: i, case: if keep { Some(case) } else { None }, outcome, stats, key });
-                    if local.len() >= 64 {
-                        let mut g = out.lock().unwrap();
-                        g.extend(local.drain(..));
-                    }
                 }
-                let mut g = out.lock().unwrap();
-                g.extend(local.drain(..));
+                out.lock().unwrap().absorb(local);
             });
         }
     });
-    let mut v = out.into_inner().unwrap();
-    v.sort_by_key(|r| r.index);
-    v
+    let mut b = out.into_inner().unwrap();
+    b.violating.sort_by_key(|r| r.index);
+    b.violating.truncate(MAX_KEPT_VIOLATIONS);
+    b.samples.sort_by_key(|r| r.index);
+    b.harness_errors.sort();
+    b
 }
 
 /// Greedy deterministic minimisation: keep any shrink candidate that still violates the
@@ -358,37 +427,16 @@ pub fn drive<P: Property>(p: &P, tier: Tier, out: &mut dyn std::io::Write) -> i3
     let paths = Paths::new();
     let count = std::env::var("VERIF_RUNS").ok().and_then(|s| s.parse().ok()).unwrap_or_else(|| p.runs(tier));
     let known = load_known_findings(&paths.known());
-    let records = run_cases(p, seed, tier, count);
-
-    let mut total = Stats::default();
-    let mut distinct: BTreeSet<u64> = BTreeSet::new();
-    let mut degenerate: BTreeMap<String, u64> = BTreeMap::new();
-    let mut harness_errors: Vec<String> = Vec::new();
-    let mut violating: Vec<&RunRecord<P::Case>> = Vec::new();
-    for r in &records {
-        total.merge(&r.stats);
-        match &r.outcome {
-            Outcome::Pass => {
-                if let Some(k) = r.key {
-                    distinct.insert(k);
-                }
-            }
-            Outcome::Degenerate(why) => {
-                *degenerate.entry(why.clone()).or_insert(0) += 1;
-            }
-            Outcome::Violation(_) => {
-                if let Some(k) = r.key {
-                    distinct.insert(k);
-                }
-                violating.push(r);
-            }
-            Outcome::HarnessError(e) => harness_errors.push(format!("run {}: {}", r.index, e)),
-        }
-    }
+    let batch = run_cases(p, seed, tier, count);
+    let total = &batch.total;
+    let distinct = &batch.distinct;
+    let degenerate = &batch.degenerate;
+    let mut harness_errors: Vec<String> = batch.harness_errors.clone();
+    let violating: Vec<&RunRecord<P::Case>> = batch.violating.iter().collect();
 
     // Minimise and report: one replay file per distinct (class, known-finding) pair, at
     // most 4 minimisations per invocation.
-    let mut new_violations = 0u64;
+    let mut new_violations = batch.violation_count.saturating_sub(violating.len() as u64);
     let mut known_hits: BTreeMap<String, u64> = BTreeMap::new();
     let mut reported: BTreeSet<String> = BTreeSet::new();
     let mut violation_lines: Vec<String> = Vec::new();
@@ -445,13 +493,15 @@ pub fn drive<P: Property>(p: &P, tier: Tier, out: &mut dyn std::io::Write) -> i3
     }
 
     let wall = t0.elapsed().as_secs_f64();
-    let samples: Vec<Value> = records
+    let samples: Vec<Value> = batch
+        .samples
         .iter()
+        .chain(batch.violating.iter())
         .filter(|r| r.case.is_some())
         .take(3)
         .map(|r| json!({ "run_index": r.index, "case": p.sample(r.case.as_ref().unwrap()) }))
         .collect();
-    let evaluations = records.len() as u64;
+    let evaluations = batch.evaluations;
     let evidence = json!({
         "property_id": p.id(),
         "tier": tier.name(),
